@@ -152,6 +152,7 @@ type world struct {
 }
 
 var worldSeq int
+var reuseAny = os.Getenv("C09_REUSE_ANY") != ""
 
 func newWorld(b *binding, mc, mr int) *world {
 	worldSeq++
@@ -174,6 +175,9 @@ func newWorld(b *binding, mc, mr int) *world {
 // later attempt re-uses here; after a reset the goroutines of the old connection may still hold the
 // shared client stream object for a moment, which is the proxy's business, not the pool's)
 func (l *lease) answered() bool {
+	if reuseAny {
+		return true // experiment only (C09_REUSE_ANY): re-use the context after a reset, too
+	}
 	select {
 	case <-l.recv.done:
 		return true
@@ -574,7 +578,7 @@ func runHist(b *binding, casesPath string, tr *vh.Trace, shard, shards int) {
 			return err
 		}
 		w := newWorld(b, c.Mc, c.Mr)
-		w.retry = n%2 == 1 && b.name != "http1"
+		w.retry = n%2 == 1
 		tr.Emit(vh.Ev{"ev": "pool", "proto": b.name, "mc": c.Mc, "mr": c.Mr, "case": n, "retryctx": w.retry})
 		dead := false
 		for _, o := range c.Ops {
